@@ -65,6 +65,9 @@ impl Prop for C19 {
     fn watchdog_s(&self) -> u64 {
         240
     }
+    fn cpu_limit_s(&self) -> u64 {
+        150
+    }
     fn budget(&self, thorough: bool) -> Budget {
         if thorough {
             Budget { runs: 6_000, wall_s: 420 }
